@@ -13,6 +13,7 @@ package main
 //@ func init$2
 //@   exits [C16:format-error-exit] exitcode() == 1 && nfs() == 0
 //@   ensures [C16:format-input] ncalls("parser.FormatPacketDsl") == 1 && (dsl != "" ==> callarg("parser.FormatPacketDsl", 0, 0) == dsl)
+//@   ensures [C16:format-file-input] dsl == "" && file != "" ==> callarg("parser.FormatPacketDsl", 0, 0) == filecontent(file, 0)
 //@   ensures [C16:format-no-error] callres("parser.FormatPacketDsl", 0, 1) == 0
 //@   ensures [C16:format-file] file != "" ==> nfs() == 1 && fskind(0) == "writefile" && fspath(0) == file && fsdata(0) == callres("parser.FormatPacketDsl", 0, 0)
 //@   ensures [C16:format-stdout] file == "" ==> nfs() == 0 && nstdout() == 1 && stdoutline(0) == callres("parser.FormatPacketDsl", 0, 0) + "\n"
